@@ -517,6 +517,10 @@ func RunR(t *kern.Task, log *kern.Log, sc *RScen, fast bool) (rec *RRec) {
 	if err != nil {
 		rec.CtorErr = err
 		rec.Err, rec.Kind = err, ErrKind(err)
+		rec.AfterSame = true // no Reader exists to read from again
+		if simsrc != nil {
+			rec.SrcCalls = simsrc.Calls
+		}
 		log.Ev(tid, kern.EvOp, 0, len(rec.Kind), "ctor "+rec.Kind)
 		rec.SrcRest, rec.SrcRestKnown = rest()
 		return rec
